@@ -35,6 +35,7 @@ type vpTransport struct {
 	accepts, drains, ncloses int
 	yieldOnRead bool
 	stallWrites bool
+	readDeadline bool // SetReadDeadline was called with a non-zero time and not cleared since
 	onStall     func() // called once, when the first stalled write of a DATA packet begins
 	drainFails  bool
 	corrupted   int
@@ -61,6 +62,10 @@ func (t *vpTransport) ReadPacket() (int, []byte, error) {
 	if t.pauseAt == t.pos+1 {
 		t.pauseAt = 0
 		vpSleepLong() // longer than any timeout the gateway may have armed
+		if t.readDeadline {
+			// a read deadline that is still in force has passed by now
+			return 0, []byte{0, 0}, errors.New("vp: read: i/o timeout")
+		}
 	}
 	if t.gen != nil {
 		if t.pos >= t.ngen {
@@ -87,6 +92,13 @@ func (t *vpTransport) ReadPacket() (int, []byte, error) {
 		return len(p), p, t.errWithLast
 	}
 	return len(p), p, nil
+}
+
+// SetReadDeadline (for code that bounds the wait for the client, as both real transports could): the zero
+// time clears it.
+func (t *vpTransport) SetReadDeadline(d time.Time) error {
+	t.readDeadline = !d.IsZero()
+	return nil
 }
 
 func (t *vpTransport) WritePacket(b []byte) (int, error) {
